@@ -2487,6 +2487,8 @@ class HelicalLattice(Lattice):
             self._N_cells * factor > self.regular_lattice.N_cells
             or self.regular_lattice.N_cells % (self._N_cells * factor) != 0
         ):
+            # enlarge a copy: the regular lattice can be shared with (shallow) copies of `self`
+            self.regular_lattice = self.regular_lattice.copy()
             self.regular_lattice.enlarge_mps_unit_cell(factor)
         self._N_cells = factor * self._N_cells
 
